@@ -364,3 +364,92 @@ func letterCaseURLs(pats []string) []string {
 	sort.Strings(out)
 	return out
 }
+
+// ---------------------------------------------------------------- query strings as written
+
+// rawQueries: query strings as a client writes them.  The required parameters of
+// rawQuerySets are page=1, sort=asc, cursor=x, q=1.  Malformed sibling pairs (bad
+// percent escape, lone "%", raw ";") before / after / between the required ones,
+// empty pieces, valueless keys, repeated keys, escaped spellings, "=" in a value.
+var rawQueries = []string{
+	"", "page=1", "page=1&sort=asc", "sort=asc&page=1", "page=2", "page=2&sort=asc", "q=1",
+	// one malformed sibling next to the required parameter(s)
+	"page=1&cursor=%zz", "page=1&sig=a;b", "cursor=100%&page=1", "page=1&%", "%&page=1",
+	"page=1&x=%1", "page=1&x=%g1", "page=1&x=%1g", "%zz=1&page=1", "page=1&a;b", "a;b&page=1",
+	"page=1&sort=asc&cursor=%zz", "cursor=%zz&page=1&sort=asc", "page=1&cursor=%zz&sort=asc",
+	"q=1&z=%zz", "z=%zz&q=1&page=1", "page=1&cursor=x&t=%", "cursor=x&;", "page=1&;",
+	// ... and the requirement still discriminates
+	"page=2&cursor=%zz", "cursor=%zz", "sort=asc&cursor=%zz", "page=1&sort=desc&cursor=%zz", "a;b", "%", "x=%zz&y=%",
+	// the malformed pair is (or could be read as) the required one: nothing demanded
+	"page=%zz&page=1", "page=1;sort=asc", "page=1%", "sig=a;page=1", "page=1&page=%zz", "pag%e=1", "page=1&sort=asc;x=1",
+	// empty pieces, valueless / repeated keys, "=" in the value
+	"page=1&", "&page=1", "&&page=1&&sort=asc&", "page=1&=", "page=1&=x", "page", "page=", "page&sort=asc", "page=1=2",
+	"page=1&page=2", "page=2&page=1", "=1",
+	// escaped spellings of a well-formed pair
+	"page=%31", "p%61ge=1", "page=1+", "page=+1", "page=1&sort=%61sc", "page=1&cursor=a%20b", "page=1&cursor=a+b%2Fc", "page=%2531",
+}
+
+func qc(name string, methods []string, query ...KV) constraint {
+	return constraint{name: name, methods: methods, query: query}
+}
+
+// rawQuerySets: flows with query requirements, alone (nothing else catches the
+// request when the requirement is judged unmet), next to an unrestricted flow on
+// the same URL and next to pattern siblings.
+func rawQuerySets() [][]Flow {
+	return [][]Flow{
+		mkFlows([]string{"a/b"}, []constraint{qc("query", nil, KV{"page", "1"})}),
+		mkFlows([]string{"a/b", "a/b"}, []constraint{qc("query", nil, KV{"page", "1"}), {name: "none"}}),
+		mkFlows([]string{"a/b", "a/*"}, []constraint{qc("query2", nil, KV{"page", "1"}, KV{"sort", "asc"}), qc("query", nil, KV{"cursor", "x"})}),
+		mkFlows([]string{"a/{p}", "a/b"}, []constraint{qc("query", nil, KV{"q", "1"}), qc("query+method", []string{"GET"}, KV{"page", "1"})}),
+	}
+}
+
+func rawQueryTxns(urls []string, n int) []Txn {
+	out := []Txn{}
+	for ui, u := range urls {
+		for qi, raw := range rawQueries {
+			if qi >= n {
+				break
+			}
+			out = append(out, rawTxn(u, "GET", raw, nil))
+			if ui == 0 && qi%5 == 2 {
+				out = append(out, rawTxn(u, "POST", raw, []KV{{"x-b", "1"}}))
+			}
+		}
+		out = append(out, Txn{Resp: true, URL: u, Method: "GET", Status: 200})
+	}
+	return out
+}
+
+// ---------------------------------------------------------------- header values, letter case
+
+// headerCaseSets: flows that partition traffic by the value of one header, the
+// value written in lower case, capitalised and as alternatives.
+func headerCaseSets() [][]Flow {
+	h := func(name string, kvs ...KV) constraint { return constraint{name: name, headers: kvs} }
+	return [][]Flow{
+		mkFlows([]string{"a/b", "a/b"}, []constraint{h("header-case", KV{"X-Env", "prod"}), h("header-case", KV{"X-Env", "staging"})}),
+		mkFlows([]string{"a/{p}", "a/*"}, []constraint{h("header-case", KV{"x-env", "Prod"}), {name: "none"}}),
+		mkFlows([]string{"a/b", "a/b"}, []constraint{
+			h("header-case-alt", KV{"X-Env", "prod"}, KV{"X-Env", "Staging"}),
+			h("header-case", KV{"Content-Type", "application/JSON"})}),
+	}
+}
+
+// headerCaseTxns: the header sent in every letter-case spelling of the required
+// values, as a different value, as a prefix / extension of it, and absent.
+func headerCaseTxns(urls []string) []Txn {
+	out := []Txn{}
+	for _, u := range urls {
+		out = append(out, Txn{URL: u, Method: "GET"})
+		for _, v := range []string{"prod", "PROD", "Prod", "pROD", "staging", "Staging", "STAGING", "dev", "pro", "prod2", ""} {
+			out = append(out, Txn{URL: u, Method: "GET", Headers: []KV{{"x-env", v}}})
+		}
+		for _, v := range []string{"application/json", "application/JSON", "Application/Json", "text/plain"} {
+			out = append(out, Txn{URL: u, Method: "POST", Headers: []KV{{"content-type", v}, {"x-env", "STAGING"}}})
+		}
+		out = append(out, Txn{Resp: true, URL: u, Method: "GET", Status: 200, Headers: []KV{{"x-env", "PROD"}}})
+	}
+	return out
+}
